@@ -122,7 +122,6 @@ func safePrefix(p string) (r string, err *facet.Failure) {
 // failure reasons that have the shape of a defect already recorded as a known
 // finding; failures of any other shape are reported in preference.
 var knownShapes = map[string]bool{
-	"empty-open-interval":             true,
 	"prefix-longer-than-known-string": true,
 }
 
